@@ -1,5 +1,25 @@
-"""C08 — BitSet: Lean model `BS.*` (Model/BitSet.lean), theorems Props/C08.lean, driver drv_c08, harness go/cmd/c08."""
+"""C08 — BitSet: Lean model `BS.*` (Model/BitSet.lean), theorems Props/C08.lean, driver drv_c08, harness go/cmd/c08.
 
+Audit against tools/HARDENING.md (what the streams exercise; generator go/cmd/c08/gen.go, corpus/C08/*.ops):
+ 1 magnitudes   calls that never allocate (State, Clear, ClearRange, the six searches) up to 2^20, 2^31-1, 2^31, 2^32±1,
+                MaxInt/2±1, 2^62, MaxInt-64..MaxInt; stored indexes: powers of two ±1 up to 2^16 generated, 2^20 in the corpus
+                (memory bounded: 16385 words); EnsureCapacity 0, -1, MinInt, 16384; words 0, 2^63, MaxUint64 in Load/popcnt.
+ 2 sizes        storage of 1,2,3,4,8,12,16,17,32,33,64,65 words (first/last bit of the edge word), Load of 12..129, 256 and
+                1000 words, ranges of length 0,1,63,64,65,128,4096(±1), growth exactly at / one over / twice the capacity.
+ 3 entry points every exported method incl. Load(nil), Equal(nil), Equal(self), Copy(self), Clone of itself, Load(own Data()).
+ 4 callbacks    none in this API (negative indexes exit the process by design: outside the domain).
+ 5 aliasing     Clone/Copy: in-place change of either side, observe the other, with and without spare words, after Trim,
+                after the destination held more, then growth again; Data()/Load(): the slice is scribbled on (bit set must
+                not notice) or kept and re-checked after every later line (suffix ALIAS:...), alternating.
+ 6 shapes       drain to empty and regrow, the only element, the same element twice, Reset (twice) then reuse, sparse sets
+                probed inside empty words and at bit 63/0 of a word, dense sets probed for clear bits, shape + free mix.
+ 7 oracles      every observation is judged by the Lean model; the scan bound is fixed (not LastSet); popcnt compares the
+                source's countSetBits with the specification popcount, not with itself.
+ 8 hangs        every line runs under a 1.5 s deadline in a worker goroutine (`hang`, rest of the history skipped, stream
+                skipped after 3); panics become `panic`; a process exit is attributed to its line by core.
+ 9 false alarms capacities, growth policy and unexported helpers are not compared (popcnt area is dropped when the helper
+                is gone); controls control-c08-1/2/3/own1 stay silent.
+"""
 
 def _trivial(line, out):
     # a line says something about the bit set only if it prints an observation of a non-empty set or a search result
@@ -22,6 +42,17 @@ def _tag(line, out):
         return op + (":sentinel" if out == "-1" else ":found")
     if op == "equal":
         return "equal:" + out.replace(" ", "/")
+    if op in ("state", "clr") and len(w) == 3 and int(w[2]) >= 1 << 20:
+        return op + ":huge-index"
+    if op == "ensure" and len(w) == 3:
+        n = int(w[2])
+        return "ensure:" + ("negative" if n < 0 else "zero" if n == 0 else "positive")
+    if op in ("copy", "clone", "loaddata") and len(w) == 3:
+        return op + (":self" if w[1] == w[2] else ":other")
+    if op == "load" and len(w) == 3:
+        k = 0 if w[2] == "-" else w[2].count(",") + 1
+        allzero = w[2] == "-" or all(x == "0" for x in w[2].split(","))
+        return "load:" + ("empty-set" if allzero else "<=8 words" if k <= 8 else "<=65 words" if k <= 65 else ">65 words")
     return None
 
 
@@ -32,16 +63,28 @@ def run(ctx):
         "Clone/Copy/Data are modelled by value; that the copies do not alias the receiver is checked on the "
         "implementation by the harness (it mutates one side / scribbles on the returned slice and observes the other)",
     ]
-    ctx.assumptions += ["index >= 0 (validateBitSetIndex exits the process otherwise)", "no Go int overflow in index arithmetic"]
+    ctx.assumptions += ["index >= 0 (validateBitSetIndex exits the process otherwise)",
+                        "no Go int overflow in index arithmetic",
+                        "indexes that are STORED stay below 2^20 + 64 (the storage is index/64 words; the list model is "
+                        "quadratic in the number of words); calls that never allocate (State, Clear, ClearRange, the "
+                        "searches) are driven up to math.MaxInt"]
     ctx.lean(props=["Props.C08"], drivers=["drv_c08"])
-    ctx.harness("./cmd/c08", overlay={"xmath/verif_c08_export.go": "c08_export.go"})
+    # the popcnt area needs the unexported helper countSetBits (overlay file).  The helper is not part of the property: if
+    # a rewrite has removed or renamed it, the harness is built without that area instead of reporting a build failure
+    nv = len(ctx.violations)
+    popcnt = ctx.harness("./cmd/c08", tags="verif c08popcnt", overlay={"xmath/verif_c08_export.go": "c08_export.go"}) is not None
+    if not popcnt:
+        del ctx.violations[nv:]
+        ctx.extra["popcnt_area"] = "skipped: xmath.countSetBits is not in the working tree (overlay does not build)"
+        ctx.harness("./cmd/c08")
     ctx.diff(area="bitset", driver="drv_c08", n={"quick": 240000, "thorough": 12000000}, stateful=True,
-             trivial=_trivial, tagger=_tag,
+             trivial=_trivial, tagger=_tag, timeout=300, shards=8 if ctx.tier == "quick" else None,
              theorem="C08.* (Props/C08.lean): the model is a finite set of naturals with the documented search results "
                      "and `set` = cardinality; the implementation differs from the model on this history")
     # `C08.countSetBits_eq_popcount` (proved for every word, Lemmas/BitSetSwar.lean) is about the transcription; this
     # stream ties the transcription to the source: Go countSetBits (exported by an overlay file) = the transcribed SWAR
     # routine = the specification popcount (the driver prints a different text when the last two differ)
-    ctx.diff(area="popcnt", driver="drv_c08", n={"quick": 120000, "thorough": 4000000}, stateful=False,
-             theorem="C08.countSetBits_eq_popcount (used by range_count / count_card / step_spec): countSetBits of the "
-                     "source differs from the population count on this word")
+    if popcnt:
+        ctx.diff(area="popcnt", driver="drv_c08", n={"quick": 120000, "thorough": 4000000}, stateful=False,
+                 theorem="C08.countSetBits_eq_popcount (used by range_count / count_card / step_spec): countSetBits of "
+                         "the source differs from the population count on this word")
